@@ -76,6 +76,8 @@ class SSet(Sym):
         t = to_z3str(x)
         if self.name is not None:
             core.cur().ghost.setdefault("set_queries", {}).setdefault(self.name, []).append(t)
+        else:
+            core.cur().ghost.setdefault("set_queries_by_id", {}).setdefault(self.base.get_id(), []).append(t)
         return mkbool(z3.Select(self.arr, t))
 
     def added(self, items):
